@@ -10,7 +10,7 @@ import (
 // spellings, words with special characters in every position, control and non-ASCII characters,
 // lengths around limits. It complements the fixed HostileStrings dictionary.
 func RandString(r *rand.Rand) string {
-	switch r.Intn(12) {
+	switch r.Intn(14) {
 	case 0:
 		return randNumberLike(r)
 	case 1: // one special character at the start, the middle or the end of a word
@@ -75,6 +75,15 @@ func RandString(r *rand.Rand) string {
 	case 10: // whitespace in every form
 		w := []string{" ", "  ", "\t", "\n", "\r", "\r\n", " a", "a ", "a  b", "a\tb", "a\nb", "\v", "\f"}
 		return w[r.Intn(len(w))]
+	case 11: // a run of multi-byte characters, then something the lexer rejects or must delimit
+		runs := []string{"\u00e9", "\u044f", "\u6f22", "\U0001F600", "\u30bf\u30a4"}
+		tails := []string{" %", "!", "\u3001x", " \"abc", " /ab", ",", "\uff01", ";", "", " x"}
+		return strings.Repeat(runs[r.Intn(len(runs))], 4+r.Intn(40)) + tails[r.Intn(len(tails))]
+	case 12: // letters whose upper- or lower-case form has a different byte length, next to keywords
+		l := []string{"\u0131", "\u017f", "\u1fbe", "\u2c65", "\u2c66", "\u0250", "\u0251", "\u026b", "\u0130", "\u212a", "\u00df", "\u0149", "\ufb01"}
+		c := l[r.Intn(len(l))]
+		forms := []string{c, "a" + c, c + "d", c + " OR b", "a:" + c + " AND b", c + ":1 OR x", "x " + c + " TO", c + c + c + " NOT y"}
+		return forms[r.Intn(len(forms))]
 	}
 	return HostileStrings[r.Intn(len(HostileStrings))]
 }
@@ -84,7 +93,10 @@ var words = []string{"a", "ab", "foo", "x1", "Zz", "\u00e9", "\u65e5\u672c", "a_
 
 // randNumberLike draws spellings that are, or look like, numbers.
 func randNumberLike(r *rand.Rand) string {
-	switch r.Intn(10) {
+	switch r.Intn(11) {
+	case 10: // edges of float32 / int32 / float64 / int64 precision, as integers and as decimals
+		e := []string{"16777217", "2147483648", "4294967297", "9007199254740991", "9007199254740993", "9007199254740995", "-9007199254740993", "1234567890123456789", "9.5e18", "9500000000000000000.0", "9.3e18", "-9.5e18", "9223372036854775808.0", "1e19", "9007199254740993.0", "16777217.5", "1234.56789", "3.14159265", "100000.00001", "36028797018963969"}
+		return e[r.Intn(len(e))]
 	case 0: // leading zeros
 		return strings.Repeat("0", 1+r.Intn(3)) + strconv.Itoa(r.Intn(1000))
 	case 1: // around the int64 and uint64 limits
